@@ -1498,6 +1498,9 @@ def pristine_eval_many(req):
         for ops in req['threads']:
             fps = []
             for op in ops:
+                if op['op'] == 'gc':
+                    fps.append(None)
+                    continue
                 try:
                     if op['op'] == 'inline':
                         cs = {'kind': 'inline', 't': op['t'], 'data': op['data'], 'custom': op['custom']}
@@ -1638,6 +1641,9 @@ def gen_plan_threads(seed: int, wide=False) -> dict:
         for _ in range(ro.choice([1, 2, 3, 4, 5])):
             r = ro.random()
             gens = [n for (n, sp) in sym.class_specs.items() if sp.get('tv')]
+            if ro.random() < 0.05:
+                ops.append({'op': 'gc'})      # a collection (and the weakref callbacks it fires) in the middle of other threads' lookups
+                continue
             if gens and r < 0.15:
                 g = ro.choice(gens)
                 prm = [ro.choice([['s', 'int'], ['s', 'str'], ['s', 'float'], ['list', ['s', 'int']], ['union', ['s', 'float'], ['s', 'int']]])
@@ -1859,6 +1865,10 @@ def execute_threads(plan, want_trace=False) -> dict:
             def body(ops, out):
                 def run():
                     for op in ops:
+                        if op['op'] == 'gc':
+                            gc.collect()
+                            out.append(None)
+                            continue
                         T = get_T(op)
                         if T is None or (op['op'] == 'serialise' and op['inst'] not in t_insts):
                             out.append(None)
